@@ -273,6 +273,14 @@ ToInt(src, fallible, width) ==
                   ELSE Panic
         /\ OnlyOut
 
+\* the by-value conversion consumes the register's own value (left empty afterwards)
+ToIntTake(r) ==
+    LET bits == Pack(reg[r].s, W(reg[r].c))
+    IN  /\ Len(reg[r].s) > 0
+        /\ out' = IF Len(bits) <= 64 THEN [ok |-> TRUE, limbs |-> Limbs(bits, 1)] ELSE Panic
+        /\ reg' = [reg EXCEPT ![r] = [c |-> reg[r].c, s |-> <<>>]]
+        /\ OnlyReg
+
 \* the exported image: only its first len*w bits are constrained
 IntoRawOK(r, limbs) ==
     LET bits == Pack(reg[r].s, W(reg[r].c))
@@ -396,6 +404,25 @@ ItRun(kind, sx, sy, w) ==
         /\ out' = IF x.ok /\ y.ok
                   THEN [items |-> ItItems(kind, x, y, w), done |-> TRUE]
                   ELSE Panic
+        /\ OnlyOut
+
+\* a partially advanced iterator handed to a consumer -- next() loop, or one of the adaptors /
+\* consumers that iterate internally (fold, for_each, count, last, skip, step_by, nth, ...): the
+\* items already handed out are never seen again, the others exactly once, in order
+ItMix(kind, sx, w, adv, consumer) ==
+    LET x == Resolve(sx)
+        all == ItItems(kind, x, x, w)
+        rest == SubSeq(all, Min2(adv, Len(all)) + 1, Len(all))
+        n == Len(rest)
+    IN  /\ kind \in {"windows", "chunks", "kmers"} => w >= 1
+        /\ out' = IF ~x.ok THEN Panic
+                  ELSE CASE consumer \in {"next", "fold", "for_each", "collect", "peekable", "enumerate", "zip"} -> [items |-> rest]
+                         [] consumer = "count" -> [count |-> n]
+                         [] consumer = "last" -> IF n = 0 THEN [some |-> FALSE] ELSE [some |-> TRUE, item |-> rest[n]]
+                         [] consumer = "skip1" -> [items |-> SubSeq(rest, 2, n)]
+                         [] consumer = "step2" -> [items |-> [i \in 1 .. ((n + 1) \div 2) |-> rest[2 * i - 1]]]
+                         [] consumer = "nth1" -> [items |-> [i \in 1 .. (n \div 2) |-> rest[2 * i]]]
+                         [] consumer = "take3" -> [items |-> SubSeq(rest, 1, Min2(3, n))]
         /\ OnlyOut
 
 (***************************************************************************)
